@@ -1,6 +1,176 @@
-(** C01 — lemmas about Model/C01_Meiosis.v *)
+(** C01 — lemmas about Model/C01_Meiosis.v: a gamete is a left-to-right mosaic of the two parental copies whose
+    source copy changes only where the crossover probability is positive; the line-by-line segment-copy loop
+    computes the same gamete as the per-marker reading. *)
 From PV Require Import Lib.Common Model.C01_Meiosis.
 Local Open Scope Z_scope.
 
-Lemma mat_dh_homozygous geno sel xoprob r : nth 0 (fst (mat_dh geno sel xoprob r)) [] = nth 1 (fst (mat_dh geno sel xoprob r)) [].
+(** ** the specification of one meiosis product *)
+(** [c] is the source copy at every marker; the copy "before marker 0" is copy 0 *)
+Definition switches_ok (xoprob : list Q) (c : list bool) : Prop :=
+  forall j, (j < length c)%nat -> nth j c false <> nth j (false :: c) false -> (0 < nth j xoprob 0)%Q.
+Definition mosaic (xoprob : list Q) (g0 g1 gam : list Z) : Prop :=
+  exists c : list bool, length c = length xoprob /\ gam = pick g0 g1 c /\ switches_ok xoprob c.
+
+Definition nonneg_row (rnd : list Q) : Prop := Forall (fun u => (0 <= u)%Q) rnd.
+Definition nonneg_mat (m : list (list Q)) : Prop := Forall nonneg_row m.
+Definition nonneg_draws (d : list (list (list Q))) : Prop := Forall nonneg_mat d.
+
+Lemma xo_row_length rnd xoprob : length (xo_row rnd xoprob) = length xoprob.
+Proof. revert rnd; induction xoprob as [|p t IH]; intros rnd; cbn; [reflexivity | now rewrite IH]. Qed.
+
+Lemma phases_length ph xo : length (phases ph xo) = length xo.
+Proof. revert ph; induction xo as [|x t IH]; intros ph; cbn; [reflexivity | now rewrite IH]. Qed.
+
+Lemma Qltb_lt a b : Qltb a b = true -> (a < b)%Q.
+Proof. unfold Qltb, Qlt. intros H. now apply Z.ltb_lt in H. Qed.
+
+Lemma nonneg_hd rnd : nonneg_row rnd -> (0 <= hd 0 rnd)%Q.
+Proof. intros H. destruct rnd as [|u t]; cbn; [apply Qle_refl | now inversion H]. Qed.
+Lemma nonneg_tl rnd : nonneg_row rnd -> nonneg_row (tl rnd).
+Proof. intros H. destruct rnd as [|u t]; cbn; [constructor | now inversion H]. Qed.
+
+(** the running phase changes at marker j only if a crossover fired there, and that needs xoprob_j > 0 *)
+Lemma phases_switch xoprob : forall rnd ph, nonneg_row rnd ->
+  let c := phases ph (xo_row rnd xoprob) in
+  forall j, (j < length c)%nat -> nth j c false <> nth j (ph :: c) false -> (0 < nth j xoprob 0)%Q.
+Proof.
+  induction xoprob as [|p tp IH]; intros rnd ph Hn c j Hj Hd.
+  - cbn in Hj. lia.
+  - subst c. cbn [xo_row phases] in *. destruct j as [|j'].
+    + cbn [nth] in *. destruct (Qltb (hd 0%Q rnd) p) eqn:E.
+      * apply Qltb_lt in E. eapply Qle_lt_trans; [apply (nonneg_hd _ Hn) | exact E].
+      * exfalso. apply Hd. destruct ph; reflexivity.
+    + cbn [nth length] in *. apply (IH (tl rnd) (xorb ph (Qltb (hd 0%Q rnd) p)) (nonneg_tl _ Hn) j'); [lia | exact Hd].
+Qed.
+
+Lemma pick_length g0 g1 c : length g0 = length c -> length g1 = length c -> length (pick g0 g1 c) = length c.
+Proof.
+  revert g0 g1; induction c as [|b t IH]; intros [|a0 t0] [|a1 t1]; cbn; try discriminate; try reflexivity.
+  intros H0 H1. f_equal. apply IH; lia.
+Qed.
+
+Lemma pick_nth c : forall g0 g1 j d, (j < length (pick g0 g1 c))%nat ->
+  nth j (pick g0 g1 c) d = if nth j c false then nth j g1 d else nth j g0 d.
+Proof.
+  induction c as [|b t IH]; intros [|a0 t0] [|a1 t1] j d Hj; cbn in Hj; try lia.
+  destruct j as [|j']; cbn [pick nth]; [destruct b; reflexivity|]. apply IH. lia.
+Qed.
+
+Lemma pick_length_le c : forall g0 g1, (length (pick g0 g1 c) <= length c)%nat.
+Proof. induction c as [|b t IH]; intros [|a0 t0] [|a1 t1]; cbn; try lia. specialize (IH t0 t1). lia. Qed.
+
+(** ** one gamete is a mosaic of the two copies of the selected individual *)
+Lemma gamete_mosaic geno s rnd xoprob : nonneg_row rnd ->
+  mosaic xoprob (row geno 0 s) (row geno 1 s) (gamete geno s rnd xoprob).
+Proof.
+  intros Hn. exists (phases false (xo_row rnd xoprob)). split; [|split].
+  - now rewrite phases_length, xo_row_length.
+  - reflexivity.
+  - intros j Hj Hd. exact (phases_switch xoprob rnd false Hn j Hj Hd).
+Qed.
+
+(** every allele of a mosaic sits at the same marker in one of the two source copies *)
+Lemma mosaic_allele xoprob g0 g1 gam j d : mosaic xoprob g0 g1 gam -> (j < length gam)%nat ->
+  nth j gam d = nth j g0 d \/ nth j gam d = nth j g1 d.
+Proof.
+  intros (c & _ & -> & _) Hj. rewrite (pick_nth c g0 g1 j d Hj). destruct (nth j c false); [right|left]; reflexivity.
+Qed.
+
+Lemma mosaic_length xoprob g0 g1 gam : mosaic xoprob g0 g1 gam -> length g0 = length xoprob -> length g1 = length xoprob ->
+  length gam = length xoprob.
+Proof. intros (c & Hc & -> & _) H0 H1. rewrite pick_length; lia. Qed.
+
+(** ** all gametes of one mat_meiosis call *)
+Lemma meiosis_rows_length geno xoprob sel : forall rnd, length (meiosis_rows geno sel rnd xoprob) = length sel.
+Proof. induction sel as [|s ts IH]; intros rnd; cbn; [reflexivity | now rewrite IH]. Qed.
+
+Lemma nonneg_mat_hd m : nonneg_mat m -> nonneg_row (hd [] m).
+Proof. intros H. destruct m; cbn; [constructor | now inversion H]. Qed.
+Lemma nonneg_mat_tl m : nonneg_mat m -> nonneg_mat (tl m).
+Proof. intros H. destruct m; cbn; [constructor | now inversion H]. Qed.
+Lemma nonneg_draws_hd d : nonneg_draws d -> nonneg_mat (hd [] d).
+Proof. intros H. destruct d; cbn; [constructor | now inversion H]. Qed.
+Lemma nonneg_draws_tl d : nonneg_draws d -> nonneg_draws (tl d).
+Proof. intros H. destruct d; cbn; [constructor | now inversion H]. Qed.
+
+Lemma meiosis_rows_mosaic geno xoprob sel : forall rnd, nonneg_mat rnd ->
+  Forall2 (fun s gam => mosaic xoprob (row geno 0 s) (row geno 1 s) gam) sel (meiosis_rows geno sel rnd xoprob).
+Proof.
+  induction sel as [|s ts IH]; intros rnd Hn; cbn; constructor.
+  - apply gamete_mosaic, nonneg_mat_hd, Hn.
+  - apply IH, nonneg_mat_tl, Hn.
+Qed.
+
+Lemma mat_dh_homozygous geno sel xoprob r :
+  nth 0 (fst (mat_dh geno sel xoprob r)) [] = nth 1 (fst (mat_dh geno sel xoprob r)) [].
 Proof. unfold mat_dh. destruct (mat_meiosis geno sel xoprob r) as [g r1]. reflexivity. Qed.
+
+(** ** the loop as written (segment copies) computes the per-marker gamete *)
+Lemma firstn_snoc {A} (m : list A) d : forall k, (k < length m)%nat -> firstn (S k) m = firstn k m ++ [nth k m d].
+Proof.
+  induction m as [|a m IH]; intros k Hk; cbn in Hk; [lia|]. destruct k as [|k']; [reflexivity|].
+  cbn [firstn nth app]. f_equal. apply IH. lia.
+Qed.
+Lemma nth_skipn' {A} (l : list A) d : forall st i, nth i (skipn st l) d = nth (st + i) l d.
+Proof.
+  induction l as [|a l IH]; intros st i.
+  - rewrite skipn_nil. destruct i; destruct (st + _)%nat; reflexivity.
+  - destruct st as [|st']; [reflexivity|]. cbn [skipn Nat.add nth]. apply IH.
+Qed.
+Lemma skipn_cons_nth {A} (l : list A) d : forall i, (i < length l)%nat -> skipn i l = nth i l d :: skipn (S i) l.
+Proof.
+  induction l as [|a l IH]; intros i Hi; cbn in Hi; [lia|]. destruct i as [|i']; [reflexivity|].
+  cbn [skipn nth]. rewrite (IH i') by lia. reflexivity.
+Qed.
+Lemma slice_snoc {A} (l : list A) d st i : (st <= i)%nat -> (i < length l)%nat ->
+  slice st (S i) l = slice st i l ++ [nth i l d].
+Proof.
+  intros H1 H2. unfold slice. replace (S i - st)%nat with (S (i - st)) by lia.
+  rewrite (firstn_snoc _ d) by (rewrite skipn_length; lia). rewrite nth_skipn'. now replace (st + (i - st))%nat with i by lia.
+Qed.
+Lemma slice_one {A} (l : list A) d i : (i < length l)%nat -> slice i (S i) l = [nth i l d].
+Proof. intros H. rewrite (slice_snoc l d) by lia. unfold slice. now rewrite Nat.sub_diag. Qed.
+
+Lemma seg_copy_pick (g0 g1 : list Z) : length g0 = length g1 ->
+  forall xo i ph stix, (stix <= i)%nat -> (i + length xo = length g0)%nat ->
+  seg_copy (length g0) g0 g1 (flatnonzero i xo) ph stix
+  = slice stix i (if ph then g1 else g0) ++ pick (skipn i g0) (skipn i g1) (phases ph xo).
+Proof.
+  intros HL. induction xo as [|x t IH]; intros i ph stix Hs Hi; cbn [length] in Hi.
+  - cbn [flatnonzero seg_copy phases]. replace i with (length g0) by lia.
+    destruct (skipn (length g0) g0), (skipn (length g0) g1); cbn [pick]; now rewrite app_nil_r.
+  - assert (Li0 : (i < length g0)%nat) by lia. assert (Li1 : (i < length g1)%nat) by lia.
+    rewrite (skipn_cons_nth g0 0 i Li0), (skipn_cons_nth g1 0 i Li1).
+    destruct x; cbn [flatnonzero seg_copy phases xorb pick].
+    + rewrite (IH (S i) (negb ph) i) by lia.
+      replace (xorb ph true) with (negb ph) by (now destruct ph).
+      rewrite (slice_one _ 0) by (destruct ph; cbn; lia).
+      destruct ph; reflexivity.
+    + rewrite (IH (S i) ph stix) by lia.
+      replace (xorb ph false) with ph by (now destruct ph).
+      rewrite (slice_snoc _ 0) by (destruct ph; lia). rewrite <- app_assoc.
+      destruct ph; reflexivity.
+Qed.
+
+Lemma gamete_seg_eq geno s rnd xoprob :
+  length (row geno 0 s) = length xoprob -> length (row geno 1 s) = length xoprob ->
+  gamete_seg geno s rnd xoprob = gamete geno s rnd xoprob.
+Proof.
+  intros H0 H1. unfold gamete_seg, gamete. rewrite <- H0.
+  rewrite (seg_copy_pick (row geno 0 s) (row geno 1 s)) by (rewrite ?xo_row_length; lia).
+  reflexivity.
+Qed.
+
+Definition rows_ok (p : nat) (geno : list (list (list Z))) : Prop :=
+  Forall (fun r => length r = p) (nth 0 geno []) /\ Forall (fun r => length r = p) (nth 1 geno []) /\
+  length (nth 0 geno []) = length (nth 1 geno []).
+
+Lemma meiosis_rows_seg_eq geno xoprob sel : rows_ok (length xoprob) geno ->
+  Forall (fun s => (s < length (nth 0 geno []))%nat) sel ->
+  forall rnd, meiosis_rows_seg geno sel rnd xoprob = meiosis_rows geno sel rnd xoprob.
+Proof.
+  intros (R0 & R1 & RL) Hs. induction Hs as [|s ts Hs1 Hs2 IH]; intros rnd; cbn; [reflexivity|].
+  rewrite IH. f_equal. apply gamete_seg_eq; unfold row.
+  - rewrite Forall_forall in R0. apply R0, nth_In, Hs1.
+  - rewrite Forall_forall in R1. apply R1, nth_In. lia.
+Qed.
